@@ -70,7 +70,23 @@ fn gen_scene(rng: &mut Rng, idx: u64) -> Option<Scene> {
     let goal = if layout == "near_goal" {
         let mut g = start;
         let j = rng.usize(6);
-        g[j] += rng.sign() * step * rng.range(0.1, 0.9);
+        // a third of these goals differs from the start by rounding residue only (one ulp, 1e-12 rad, a
+        // degree round trip, identical): the path still has to end with the goal bit for bit
+        match rng.usize(6) {
+            0 => g[j] = f64::from_bits(g[j].to_bits() + 1),
+            1 => {
+                for k in 0..6 {
+                    g[k] = g[k].to_degrees().to_radians();
+                }
+                g[j] += 1e-12;
+            }
+            2 => {
+                if rng.bool(0.5) {
+                    g[j] += rng.sign() * rng.logu(1e-14, 1e-7);
+                }
+            }
+            _ => g[j] += rng.sign() * step * rng.range(0.1, 0.9),
+        }
         if probe.collides(&g) || g[j].abs() > 3.0 {
             return None;
         }
